@@ -1532,3 +1532,4 @@ def cflow(c):
 
 import absint.models_std2
 import absint.models_content      # noqa: E402  (registers further models; needs M)
+import absint.models_net          # noqa: E402  (std::net addresses as records; opt-in per interpreter)
